@@ -337,6 +337,8 @@ def run(chk):
     from contracts import C07 as _c07
     chk.under_contract("hiten.algorithms.types.services.hamiltonian:_HamiltonianPipelineService.get")
     _c07._pipeline_registry(chk)
+    from contracts import C08 as _c08
+    _c08._series_length(chk)
     chk.under_contract(SC + ":_CenterManifoldDynamicsService._cm_point_to_synodic_4d",
                        SC + ":_CenterManifoldDynamicsService.synodic_to_cm",
                        SC + ":_CenterManifoldDynamicsService._cm_point_to_synodic_from_section",
